@@ -88,7 +88,7 @@ func dumpGoverned(c *Chain) string {
 	if it, err := c.App.RegistryKeeper.SpecRegistry.Iterate(ctx, nil); err == nil {
 		for ; it.Valid(); it.Next() {
 			kv, _ := it.KeyValue()
-			specs = append(specs, kv.Key+"."+dig(cdc.MustMarshal(&kv.Value)))
+			specs = append(specs, strings.NewReplacer(" ", "~", "\t", "^").Replace(kv.Key)+"."+dig(cdc.MustMarshal(&kv.Value)))
 		}
 		it.Close()
 	}
@@ -223,7 +223,7 @@ func runAuthzHist(t *testing.T, in []string) string {
 			case "team":
 				extra = ":new=" + f[2]
 			case "regspec":
-				extra = ":type=" + strings.ToLower(f[2])
+				extra = ":type=" + strings.ToLower(f[2]) // with the "~" / "^" placeholders
 			}
 			hh.Out = append(hh.Out, fmt.Sprintf("X %s:%s:%s%s", kind, p.signer, res, extra))
 		}
@@ -313,7 +313,7 @@ func genAuthzHist(r *Rng, i int, tier string) []string {
 				tx("team %s %s", a, other(a)) // anybody else: rejected
 			}
 		case 4:
-			tx("regspec %s %s uint256 weighted-median %d", a, r.PickS("SpotPrice", "spotprice", "NewType", "Another"), r.Pick(1, 5))
+			tx("regspec %s %s uint256 weighted-median %d", a, r.PickS("SpotPrice", "spotprice", "NewType", "Another", "~spotprice", "spotprice~", "^SpotPrice", "TRBBridge~", "~newtype"), r.Pick(1, 5))
 		case 5:
 			tx("tip %s q%d %d", a, r.Intn(3), r.Range(1000, 1e6))
 		case 6, 7:
